@@ -38,7 +38,7 @@ type M = map[string]any
 
 type program struct {
 	ID    string
-	Group string // hostile, corpus, sweep, fixture, skipped, minimal
+	Group string // hostile, corpus, sweep, fixture, skipped, minimal, cross
 	Spec  []byte
 	Opts  func() gen.Options
 	Attrs map[string]string
@@ -392,6 +392,114 @@ func programs(r *vf.Run) []program {
 				sj, _ := json.Marshal(sch)
 				ps = append(ps, program{ID: fmt.Sprintf("m_%04d_%s", i, where), Group: "minimal", Spec: data, Opts: featureOpts([]string{"paths/server", "paths/client", "ogen/unimplemented"}, ""),
 					Attrs: map[string]string{"where": where, "schema": string(sj)}, Desc: M{"only_construct": json.RawMessage(sj), "as": where}})
+			}
+		}
+	}
+	// ----- (G) cross products of small closed sets, each combination alone in a document:
+	// type x format (as JSON body and as query parameter), parameter shape x nullable x required x
+	// location, and form / multipart bodies of degenerate shapes
+	{
+		mk := func(id string, op M, attrs map[string]string, desc M) {
+			spec := M{"openapi": "3.0.3", "info": M{"title": "t", "version": "1"}, "paths": M{"/a/{pp}": M{"post": op}}}
+			// the path parameter is declared unless the operation brings its own
+			ps0, _ := op["parameters"].([]any)
+			hasPath := false
+			for _, p := range ps0 {
+				if p.(M)["in"] == "path" {
+					hasPath = true
+				}
+			}
+			if !hasPath {
+				op["parameters"] = append(ps0, M{"name": "pp", "in": "path", "required": true, "schema": M{"type": "string"}})
+			}
+			data, _ := json.Marshal(spec)
+			ps = append(ps, program{ID: id, Group: "cross", Spec: data, Opts: featureOpts([]string{"paths/server", "paths/client", "ogen/unimplemented"}, ""), Attrs: attrs, Desc: desc})
+		}
+		ok204 := func() M { return M{"204": M{"description": "ok"}} }
+		formats := []string{"int8", "int16", "int32", "int64", "uint", "uint8", "uint16", "uint32", "uint64", "unix", "unix-seconds", "unix-nano", "unix-micro", "unix-milli", "float", "double", "float32", "float64",
+			"byte", "base64", "date-time", "date", "time", "duration", "uuid", "mac", "ip", "ipv4", "ipv6", "uri", "password", "email", "hostname", "binary", "int", "decimal", "unknown-format"}
+		n := 0
+		for _, typ := range []string{"string", "integer", "number", "boolean", "array", "object"} {
+			for _, f := range formats {
+				sch := M{"type": typ, "format": f}
+				if typ == "array" {
+					sch["items"] = M{"type": "string"}
+				}
+				n++
+				mk(fmt.Sprintf("x_tf_%03d_body", n), M{"operationId": "op", "requestBody": M{"required": true, "content": M{"application/json": M{"schema": sch}}}, "responses": ok204()},
+					map[string]string{"cross": "type-format-body", "type": typ, "format": f}, M{"type": typ, "format": f, "as": "JSON body"})
+				if typ != "object" {
+					mk(fmt.Sprintf("x_tf_%03d_query", n), M{"operationId": "op", "parameters": []any{M{"name": "q", "in": "query", "schema": sch}}, "responses": ok204()},
+						map[string]string{"cross": "type-format-query", "type": typ, "format": f}, M{"type": typ, "format": f, "as": "query parameter"})
+				}
+			}
+		}
+		shapes := map[string]M{"string": {"type": "string"}, "integer": {"type": "integer", "minimum": 0}, "array": {"type": "array", "items": M{"type": "string"}}, "array-of-int": {"type": "array", "items": M{"type": "integer"}, "minItems": 1},
+			"object": {"type": "object", "properties": M{"a": M{"type": "string"}, "b": M{"type": "integer"}}}, "enum": {"type": "string", "enum": []any{"a", "b"}}, "uuid": {"type": "string", "format": "uuid"}, "date-time": {"type": "string", "format": "date-time"}}
+		var shapeNames []string
+		for k := range shapes {
+			shapeNames = append(shapeNames, k)
+		}
+		sort.Strings(shapeNames)
+		for _, sn := range shapeNames {
+			for _, nullable := range []bool{false, true} {
+				for _, required := range []bool{false, true} {
+					for _, in := range []string{"query", "header", "cookie", "path"} {
+						if in == "path" && !required {
+							continue
+						}
+						for _, dflt := range []bool{false, true} {
+							sch := grammar.Merge(shapes[sn])
+							if nullable {
+								sch["nullable"] = true
+							}
+							if dflt {
+								switch sn {
+								case "string", "enum":
+									sch["default"] = "a"
+								case "integer":
+									sch["default"] = 1
+								default:
+									continue
+								}
+							}
+							name := "q"
+							if in == "path" {
+								name = "pp"
+							}
+							id := fmt.Sprintf("x_p_%s_%v_%v_%s_%v", strings.ReplaceAll(sn, "-", ""), nullable, required, in, dflt)
+							mk(id, M{"operationId": "op", "parameters": []any{M{"name": name, "in": in, "required": required, "schema": sch}}, "responses": ok204()},
+								map[string]string{"cross": "parameter", "shape": sn, "nullable": fmt.Sprint(nullable), "required": fmt.Sprint(required), "in": in, "default": fmt.Sprint(dflt)},
+								M{"parameter": sn, "nullable": nullable, "required": required, "in": in, "default": dflt})
+						}
+					}
+				}
+			}
+		}
+		bodies := map[string]M{
+			"no-properties":           {"type": "object"},
+			"empty-properties":        {"type": "object", "properties": M{}},
+			"additional-only":         {"type": "object", "additionalProperties": M{"type": "string"}},
+			"one-optional":            {"type": "object", "properties": M{"a": M{"type": "string"}}},
+			"nullable-member":         {"type": "object", "properties": M{"a": M{"type": "string", "nullable": true}, "n": M{"type": "integer", "nullable": true}}, "required": []any{"a"}},
+			"array-members":           {"type": "object", "properties": M{"a": M{"type": "array", "items": M{"type": "string"}}, "n": M{"type": "array", "items": M{"type": "integer"}, "nullable": true}}, "required": []any{"n"}},
+			"nested-object":           {"type": "object", "properties": M{"o": M{"type": "object", "properties": M{"x": M{"type": "string"}}}}},
+			"enum-and-default-member": {"type": "object", "properties": M{"e": M{"type": "string", "enum": []any{"a", "b"}, "default": "a"}, "t": M{"type": "string", "format": "date-time"}}},
+			"only-files":              {"type": "object", "properties": M{"f": M{"type": "string", "format": "binary"}, "fs": M{"type": "array", "items": M{"type": "string", "format": "binary"}}}},
+			"optional-file":           {"type": "object", "properties": M{"f": M{"type": "string", "format": "binary"}, "a": M{"type": "integer"}}, "required": []any{"a"}},
+			"all-of":                  {"allOf": []any{M{"type": "object", "properties": M{"a": M{"type": "string"}}}, M{"type": "object", "properties": M{"b": M{"type": "integer"}}, "required": []any{"b"}}}},
+		}
+		var bodyNames []string
+		for k := range bodies {
+			bodyNames = append(bodyNames, k)
+		}
+		sort.Strings(bodyNames)
+		for _, bn := range bodyNames {
+			for _, ct := range []string{"application/x-www-form-urlencoded", "multipart/form-data"} {
+				for _, required := range []bool{true, false} {
+					mk(fmt.Sprintf("x_b_%s_%s_%v", strings.ReplaceAll(bn, "-", ""), ct[:9], required), M{"operationId": "op", "requestBody": M{"required": required, "content": M{ct: M{"schema": bodies[bn]}}}, "responses": ok204()},
+						map[string]string{"cross": "form-body", "body": bn, "media": ct, "required": fmt.Sprint(required)}, M{"form_body": bn, "media": ct, "required": required})
+				}
 			}
 		}
 	}
